@@ -54,6 +54,8 @@ type Object struct {
 	// snapshot, when non-nil, is the deep copy of the Go value this byte buffer encodes (bencode stubs)
 	snapshot Value
 	snapType types.Type
+	snapOff  int // offset and length of the encoded bytes inside this buffer
+	snapLen  int
 	frozen   bool
 }
 
